@@ -156,6 +156,38 @@ Fixpoint mysql_escape (s : string) : string :=
   end.
 Definition sql_quote (s : string) : string := "'" +++ mysql_escape s +++ "'".
 
+(* modify_column_comment.rs:75-76: comment.replace('\'', "''") — quotes doubled, nothing else escaped *)
+Fixpoint hand_escape (s : string) : string :=
+  match s with
+  | EmptyString => EmptyString
+  | String a r => if N.eqb (N_of_ascii a) 39 then String a (String a (hand_escape r)) else String a (hand_escape r)
+  end.
+
+(* what MySQL reads from the body of a string literal (default sql_mode: backslash escapes on; manual, "String
+   Literals", Table 11.1): \0 \b \t \z \n \r name control characters, any other \x is x, '' is one quote.
+   (\% and \_ keep their backslash in MySQL; neither escaping function above ever produces them.) *)
+Definition unescape_char (a : ascii) : ascii :=
+  let n := N_of_ascii a in
+  if N.eqb n 48 then ascii_of_N 0
+  else if N.eqb n 98 then ascii_of_N 8
+  else if N.eqb n 116 then ascii_of_N 9
+  else if N.eqb n 122 then ascii_of_N 26
+  else if N.eqb n 110 then ascii_of_N 10
+  else if N.eqb n 114 then ascii_of_N 13
+  else a.
+Fixpoint mysql_unescape (s : string) : string :=
+  match s with
+  | EmptyString => EmptyString
+  | String a r =>
+      match r with
+      | String b r' =>
+          if N.eqb (N_of_ascii a) 92 then String (unescape_char b) (mysql_unescape r')
+          else if (N.eqb (N_of_ascii a) 39 && N.eqb (N_of_ascii b) 39)%bool then String a (mysql_unescape r')
+          else String a (mysql_unescape r)
+      | EmptyString => String a EmptyString
+      end
+  end.
+
 Inductive gen_error :=
 | GenNormalize                      (* create_table.rs:179-181 *)
 | GenTableNotFound (t : string)     (* modify_column_{nullable,default,comment}.rs *)
@@ -171,6 +203,21 @@ Definition lookup_column (s : schema) (table column : string) : option column_de
 (* ---------- create_table.rs:12-291, MySQL ---------- *)
 Definition auto_increment_columns (ks : list table_constraint) : list string :=
   flat_map (fun k => match k with CPrimaryKey true cols => cols | _ => [] end) ks.
+
+Definition constraints_of (s : schema) (t : string) : list table_constraint :=
+  match find_table t s with Some td => t_constraints td | None => [] end.
+
+(* helpers.rs restate_mysql_auto_increment / restate_mysql_column_attributes (fix N1): a MODIFY COLUMN restates
+   AUTO_INCREMENT when the column is a member of an auto-increment primary key of its table and its type supports it
+   (the rule of create_table.rs), and COMMENT '<escape_string>' (ColumnSpec::Comment, backend/mysql/table.rs:195) when
+   the column carries a comment *)
+Definition restated_auto (s : schema) (table : string) (c : column_def) : bool :=
+  (mem_str (c_name c) (auto_increment_columns (constraints_of s table)) && supports_auto_increment (c_type c))%bool.
+Definition restate_auto (s : schema) (table : string) (c : column_def) (d : coldef) : coldef :=
+  mkColDef (cd_name d) (cd_type d) (cd_notnull d) (cd_default d) (cd_pk d) (restated_auto s table c) (cd_comment d).
+Definition restate_attrs (s : schema) (table : string) (c : column_def) (d : coldef) : coldef :=
+  mkColDef (cd_name d) (cd_type d) (cd_notnull d) (cd_default d) (cd_pk d) (restated_auto s table c)
+           (option_map mysql_escape (c_comment c)).
 
 Definition create_coldef (ks : list table_constraint) (c : column_def) : coldef :=
   with_pk_auto (is_some (c_primary_key c) && negb (existsb is_pk ks))%bool
@@ -230,9 +277,10 @@ Definition fill_with_updates (table column : string) (fw : option (list (string 
 Definition modify_type_coldef (s : schema) (table column : string) (new_type : column_type) : coldef :=
   match lookup_column s table column with
   | Some c =>
-      mkColDef column (mysql_type_text new_type) (negb (c_nullable c))
-        (option_map (fun d => normalize_enum_default new_type (convert_default_mysql (default_to_sql d))) (c_default c))
-        false false None
+      restate_attrs s table (set_type new_type c)
+        (mkColDef column (mysql_type_text new_type) (negb (c_nullable c))
+           (option_map (fun d => normalize_enum_default new_type (convert_default_mysql (default_to_sql d))) (c_default c))
+           false false None)
   | None => mkColDef column (mysql_type_text new_type) false None false false None
   end.
 
@@ -258,20 +306,23 @@ Definition gen_modify_nullable (s : schema) (table column : string) (nullable : 
              | false, Some f => [SUpdate table column (convert_default_mysql f) (Some (WIsNull column))]
              | _, _ => []
              end in
-  with_column s table column (fun c => upd ++ [SModifyColumn table (sea_coldef (set_nullable nullable c))]).
+  with_column s table column
+    (fun c => let c' := set_nullable nullable c in upd ++ [SModifyColumn table (restate_attrs s table c' (sea_coldef c'))]).
 
 (* modify_column_default.rs:51-86 *)
 Definition gen_modify_default (s : schema) (table column : string) (nd : option string)
   : result (list stmt) gen_error :=
   with_column s table column
-    (fun c => [SModifyColumn table (sea_coldef (set_default (option_map default_of_string nd) c))]).
+    (fun c => let c' := set_default (option_map default_of_string nd) c in
+              [SModifyColumn table (restate_attrs s table c' (sea_coldef c'))]).
 
-(* modify_column_comment.rs:34-86: the COMMENT clause is appended by hand; it is the only place a comment
-   is ever emitted on MySQL *)
+(* modify_column_comment.rs:34-86: AUTO_INCREMENT is restated like above, the COMMENT clause is appended by hand
+   with its own escaping (quotes doubled) *)
 Definition gen_modify_comment (s : schema) (table column : string) (nc : option string)
   : result (list stmt) gen_error :=
   with_column s table column
-    (fun c => [SModifyColumn table (with_comment nc (sea_coldef (set_comment nc c)))]).
+    (fun c => let c' := set_comment nc c in
+              [SModifyColumn table (with_comment (option_map hand_escape nc) (restate_auto s table c' (sea_coldef c')))]).
 
 (* ---------- add_constraint.rs / remove_constraint.rs, MySQL ---------- *)
 Definition gen_add_constraint (table : string) (k : table_constraint) : list stmt :=
